@@ -131,7 +131,7 @@ PROPS.update({
         "assumptions": ["source and target are well-formed pointer-free names under the parser's character policy (is_cname), both non-root: the property's quantifier",
                         "on an Err exit taken while an iterator is still alive, 'the packet object is unchanged' is not stated (Verus does not resolve the prophecy of the live iterator at a `?` exit); it is stated for Ok exits",
                         "units with iterator client loops are verified with --no-lifetime"],
-        "level_text": "PARTIAL proof: replace_raw is proved EQUAL to replace_spec (label-aligned, case-insensitive exact/suffix match; result = kept labels ++ target; TooLong exactly when the result would exceed 255) for all well-formed names; copy_with_replaced_name fails exactly when replace_spec is TooLong and otherwise appends the compressed form (whole labels + at most one pointer) of the rewritten -- or, without a match, the original -- expanded name, which is again a clean name; the emitter's F8 clause (see C06: a faithful dictionary in, the emitted name valid and equal up to case, a faithful dictionary out) is verified in this unit too; every name-bearing record type writes RDLENGTH == bytes appended after the 10-byte header (one obligation per arm: NS/CNAME/PTR, MX, SOA); the OPT record is copied by the generic arm in place; the section walks only read the packet object; header copied. NOT proved by contracts: that the output is accepted and whole-message equality (differential replay only); ParsedPacket::rename_with_raw_names (re-parse wrapper with its four assert_eq! on the EDNS summary) is not under contract",
+        "level_text": "PARTIAL proof: replace_raw is proved EQUAL to replace_spec (label-aligned, case-insensitive exact/suffix match; result = kept labels ++ target; TooLong exactly when the result would exceed 255) for all well-formed names; copy_with_replaced_name fails exactly when replace_spec is TooLong and otherwise appends the compressed form (whole labels + at most one pointer) of the rewritten -- or, without a match, the original -- expanded name, which is again a clean name; F8 for the renamer (see C06): the invariant dict_ok holds from SuffixDict::new() to the end of Renamer::rename_with_raw_names, across every section walk and every RDLENGTH fix-up (window lemmas), so every name the renamer writes -- question, owner names, NS/CNAME/PTR/MX targets, both SOA names -- is valid under the parser's name rule and decodes, in the output, to renamed_name(expanded input name) == the rewritten name or, without a match, the original, up to ASCII case; every name-bearing record type writes RDLENGTH == bytes appended after the 10-byte header (one obligation per arm: NS/CNAME/PTR, MX, SOA); the OPT record is copied by the generic arm in place; the section walks only read the packet object; header copied. NOT proved by contracts: that the output is accepted and whole-message equality (differential replay only); ParsedPacket::rename_with_raw_names (re-parse wrapper with its four assert_eq! on the EDNS summary) is not under contract",
         "technique": "Verus functional contract of replace_raw against a spec function + per-record bookkeeping obligations on the extracted renamer; remaining clauses by differential replay (stated)",
     },
     "C13": {
